@@ -45,6 +45,7 @@ type Knobs struct {
 	Glue        bool
 	GlueFaulty  bool // transient RPC failures and lost notifications
 	GlueAsync   bool // notifications may be delivered after further chain events
+	QueryDisableDen int // 0: never; else a restarted instance runs with QueryDisable with probability 1/den
 	GlueAtomic  bool // reorgs are single chain events (the backend never shows a shortened chain)
 	GlueRPCDen  int  // an RPC fails with probability 1/GlueRPCDen ...
 	GlueMaxRPC  int  // ... at most this often per run
@@ -85,6 +86,13 @@ type reqState struct {
 	// survives a restart (the hint stays above the event if that block is
 	// disconnected and the transaction re-mined lower).
 	orphanHint bool
+
+	// whole run: the request was registered with some notifier instance;
+	// taint: in an earlier epoch it was fed a stale answer, an orphan answer,
+	// or its rescan was never answered (consequences of recorded findings may
+	// sit in the persisted hint)
+	everRegistered bool
+	taint          bool
 }
 
 // judged reports whether the liveness/hint obligations apply to the request.
@@ -95,6 +103,9 @@ func (rs *reqState) judged() bool {
 func (rs *reqState) answered() bool { return rs.registered && rs.outstanding == nil && !rs.dropped }
 
 func (rs *reqState) resetEpoch() {
+	if rs.stale || rs.orphan || rs.orphanHint || rs.dropped || rs.outstanding != nil {
+		rs.taint = true
+	}
 	rs.registered, rs.outstanding, rs.dropped = false, nil, false
 	rs.stale, rs.orphan = false, false
 	// multi stays: what an earlier epoch persisted for a reused script
@@ -191,6 +202,10 @@ type Sim struct {
 
 	kv    *simcore.SimKV
 	cache *channeldb.HeightHintCache
+	// probe: the simulator's own view of the persisted hints (the node's
+	// cache may run with QueryDisable)
+	probe         *channeldb.HeightHintCache
+	queryDisabled bool
 	nt    *chainntnfs.TxNotifier
 	ntUp  bool
 	epoch int
@@ -245,9 +260,14 @@ func (s *Sim) blockAt(h uint32) *blk {
 
 // boot creates the hint cache and a TxNotifier at the current tip.
 func (s *Sim) boot() {
-	cache, err := channeldb.NewHeightHintCache(channeldb.CacheConfig{}, s.kv)
+	cache, err := channeldb.NewHeightHintCache(channeldb.CacheConfig{QueryDisable: s.queryDisabled}, s.kv)
 	s.R.Must(err, "height hint cache")
 	s.cache = cache
+	s.probe = cache
+	if s.queryDisabled {
+		s.probe, err = channeldb.NewHeightHintCache(channeldb.CacheConfig{}, s.kv)
+		s.R.Must(err, "height hint cache (probe)")
+	}
 	s.nt = chainntnfs.NewTxNotifier(s.tip(), s.K.Limit, cache, cache)
 	s.ntUp = true
 	s.depth = 0
@@ -921,12 +941,12 @@ func (s *Sim) queryHint(rs *reqState) (uint32, bool) {
 		err  error
 	)
 	if rs.spend {
-		hint, err = s.cache.QuerySpendHint(rs.spendReq)
+		hint, err = s.probe.QuerySpendHint(rs.spendReq)
 		if err == chainntnfs.ErrSpendHintNotFound {
 			return 0, false
 		}
 	} else {
-		hint, err = s.cache.QueryConfirmHint(rs.confReq)
+		hint, err = s.probe.QueryConfirmHint(rs.confReq)
 		if err == chainntnfs.ErrConfirmHintNotFound {
 			return 0, false
 		}
@@ -935,10 +955,42 @@ func (s *Sim) queryHint(rs *reqState) (uint32, bool) {
 	return hint, true
 }
 
+// checkUnwatchedHint judges the persisted hint of a request that an earlier
+// notifier instance watched and the current one was never asked about (all its
+// clients cancelled before the restart): a later registration will start its
+// rescan there. The hint is the earlier instance's responsibility unless the
+// chain was rolled back below it while nobody watched (unwatchedLow), or one
+// of the recorded findings may have left its mark on it.
+func (s *Sim) checkUnwatchedHint(rs *reqState) {
+	if rs.taint || rs.grp.frozen || rs.orphanHint || rs.grp.regEpoch == s.epoch {
+		return
+	}
+	hint, ok := s.queryHint(rs)
+	if !ok || rs.grp.unwatchedLow < hint {
+		return
+	}
+	hs := s.matches(rs)
+	if len(hs) == 0 {
+		return
+	}
+	s.R.Count("probe_unwatched_hint_judged")
+	if hint > hs[0].b.height {
+		verb := "confirmed"
+		if rs.spend {
+			verb = "spent"
+		}
+		s.fail(rs, "hint-above-event", "persisted height hint for %s is %d, but the request is %s at height %d on the active chain (tip %d); the request is not registered with the current notifier instance, an earlier instance left the hint there although the chain was never rolled back below it while nobody watched: a later registration rescans from the hint and misses it", rs.key, hint, verb, hs[0].b.height, s.tip())
+	}
+}
+
 // checkHints: a persisted hint never lies above the height at which the
 // request is confirmed/spent on the active chain.
 func (s *Sim) checkHints() {
 	for _, rs := range s.reqOrder {
+		if !rs.registered && rs.everRegistered && rs.judged() {
+			s.checkUnwatchedHint(rs)
+			continue
+		}
 		if !rs.registered || !rs.judged() {
 			continue
 		}
